@@ -434,6 +434,8 @@ impl Allocator for Arena {
 
   #[inline]
   fn increase_discarded(&self, size: u32) {
+    assert!(!self.ro, "ARENA is read-only");
+
     #[cfg(feature = "tracing")]
     tracing::debug!("discard {size} bytes");
 
@@ -452,6 +454,8 @@ impl Allocator for Arena {
 
   #[inline]
   fn set_minimum_segment_size(&self, size: u32) {
+    assert!(!self.ro, "ARENA is read-only");
+
     self
       .header()
       .min_segment_size
